@@ -287,10 +287,15 @@ func c15RunSched(line string) string {
 	// final drain
 	r.ctl.Uninstall()
 	r.sys.Gate()
+	finalDeadline := time.Now().Add(3 * time.Second)
 	for _, t := range r.ths {
 		if t.busy {
 			t.armed = nil
-			x := r.wait(t, 3*time.Second)
+			left := time.Until(finalDeadline)
+			if left < 50*time.Millisecond {
+				left = 50 * time.Millisecond
+			}
+			x := r.wait(t, left)
 			if strings.HasSuffix(x, "!") {
 				x = t.name + "!stuck"
 			}
